@@ -1,27 +1,25 @@
-"""C06 - inbound application messages reach the application in order, exactly once.
-Family "seq" of Session.tla; monitors C06_* of Monitors.tla on traces of the real engine."""
+"""C06 - messages failing session-level checks never reach the application.
+Family "gate" of Session.tla; monitors C06_*."""
 from lib import common, sessfam
 
 LEVEL = 'model_checking'
 PID = 'C06'
 FAMILY = 'gate'
 PROPS = ['P_C06']
+BASE = [{'role': 'acc', 'bs': 42}, {'role': 'acc', 'bs': 42, 'checkLatency': False}]
+ALT = [{'role': 'init', 'bs': 44}, {'role': 'acc', 'bs': 40}, {'role': 'init', 'bs': 41, 'checkLatency': False}, {'role': 'acc', 'bs': 50}, {'role': 'init', 'bs': 42}, {'role': 'acc', 'bs': 44, 'chunk': 2}]
 
 
 def configs(ctx):
-    quick = ctx.tier == 'quick'
-    base = [dict(role='acc', bs=42, chunk=0), dict(role='acc', bs=42, chunk=2)]
-    alt = [dict(role='init', bs=44, chunk=0), dict(role='init', bs=40, chunk=2), dict(role='acc', bs=41, chunk=1),
-           dict(role='init', bs=50, chunk=0), dict(role='acc', bs=44, chunk=3), dict(role='init', bs=42, chunk=1)]
-    if quick:
-        return base + [alt[ctx.seed % len(alt)]]
-    return base + alt
+    if ctx.tier == 'quick':
+        return BASE + [ALT[(ctx.seed + i) % len(ALT)] for i in range(min(2, len(ALT)))]
+    return BASE + ALT
 
 
 def run(ctx):
-    sessfam.standard_run(ctx, PID, FAMILY, PROPS, configs(ctx),
-                         quick_budget=15000, thorough_budget=250000,
-                         statement='FromApp order / at-expected / advance-by-one / monotone counter')
+    sessfam.standard_run(ctx, PID, FAMILY, PROPS, configs(ctx), quick_budget=15000, thorough_budget=250000,
+                         quick_bounds={'maxIn': 6, 'maxOut': 3}, thorough_bounds={'maxIn': 6, 'maxOut': 4},
+                         statement='gate on FromApp/FromAdmin/logon, mandated reactions, RefSeqNum, reversed routing')
 
 
 def replay(ctx, path):
